@@ -250,8 +250,10 @@ func execCert(env Env, t *world.TaskSpec, out *Outcome) {
 				if len(t.Delays) > 0 {
 					if d := t.Delays[i%len(t.Delays)]; d > 0 {
 						env.Sleep(d)
-					} else if d < 0 {
+					} else if d == -1 {
 						env.Sync()
+					} else if d < -1 {
+						env.Snooze(int(-d))
 					}
 				}
 				// the checker may stop reading at any time: never block on it for ever
